@@ -35,6 +35,23 @@ theorem unmarshal_marshal_usr_partial (ops : UserOps) (L : Lenient ops) (fs : Fi
   rw [unmarshalUsr_lenient L _ _ hk, h1]
   rfl
 
+/-- … compared at the type itself (`canonical t`; since the repair of `Spec.Protobuf.canonTy`) -/
+theorem unmarshal_marshal_usr_partial_canon (ops : UserOps) (L : Lenient ops) (fs : Fields) (u : Val)
+    (hc : LeavesOK ops (codecOf (.struct fs)) u) (hk : keysPlain (codecOf (.struct fs)) = true)
+    (hty : tyOKM4 (.struct fs) = true)
+    (hp : ptrsOK4 (.struct fs) (absV ops (codecOf (.struct fs)) u) = true)
+    (hv : hasTypeM4 (.struct fs) (absV ops (codecOf (.struct fs)) u) = true)
+    (hne : valOKM4 (.struct fs) (absV ops (codecOf (.struct fs)) u) = true)
+    (hlen : (marshal (.struct fs) (absV ops (codecOf (.struct fs)) u)).length < 2 ^ 64)
+    (hdep : Codec.nesting (codecOf (.struct fs)) ≤ Gen.c_proto_maxDepth) :
+    ∃ b w', marshalUsr ops (.struct fs) u = .ok b
+      ∧ unmarshalUsr ops (.struct fs) b = .ok (concV ops (codecOf (.struct fs)) w')
+      ∧ canonical (.struct fs) w' = canonical (.struct fs) (absV ops (codecOf (.struct fs)) u) := by
+  obtain ⟨w', h1, h2⟩ := unmarshal_marshal_map_partial_opaque_canon fs _ hty hp hv hne hlen hdep
+  refine ⟨_, w', (marshalUsr_ok ops _ u hc).1, ?_, h2⟩
+  rw [unmarshalUsr_lenient L _ _ hk, h1]
+  rfl
+
 /-- **the reference decoder reads what `Marshal` writes for a message with user types**: every user value as a bytes field
 holding what its `Marshal` wrote -/
 theorem reference_decodes_marshal_usr (ops : UserOps) (fs : Fields) (u : Val)
